@@ -964,10 +964,34 @@ Proof.
   destruct parked; [exact H1|]. now apply (Inv_ext s1).
 Qed.
 
+Lemma acc_ret_inv s c x e : Inv s -> Inv (acc_ret s c x e).
+Proof.
+  intros H. unfold acc_ret.
+  pose proof (release_call_by_inv (setc s c (with_cpc x (CRel e))) (cref x) (Some c)) as G.
+  destruct (release_call_by (setc s c (with_cpc x (CRel e))) (cref x) (Some c)) as [s1 parked]. cbn [fst] in G.
+  assert (H1 : Inv s1) by (apply G; now apply (Inv_ext s)).
+  destruct parked; [exact H1|]. now apply (Inv_ext s1).
+Qed.
+
+Lemma acc_s1_inv s c x : Inv s -> Inv (acc_s1 s c x).
+Proof.
+  intros H. unfold acc_s1. destruct (negb (Nat.eqb (ac_err x) 0)); [now apply acc_ret_inv|].
+  destruct (ac_res x); [now apply (Inv_ext s)|]. destruct (ccanc x); [now apply acc_ret_inv | now apply (Inv_ext s)].
+Qed.
+
+Lemma cb_return_inv fx s c res : Inv s -> Inv (cb_return fx s c res).
+Proof.
+  intros H. unfold cb_return. destruct (nth_error (conss s) c) as [x|]; [|exact H].
+  destruct (ck x); try exact H. destruct (cpcv x); try exact H.
+  destruct (ccanc x); [now apply acc_ret_inv|].
+  match goal with |- Inv (if ?b then _ else _) => destruct b end; [now apply acc_ret_inv | now apply (Inv_ext s)].
+Qed.
+
 Lemma cons_step_inv s c : Inv s -> Inv (cons_step s c).
 Proof.
   intros H. unfold cons_step. destruct (nth_error (conss s) c) as [x|]; [|exact H].
-  destruct (ck x), (cpcv x); try exact H.
+  destruct (ck x), (cpcv x); try exact H; try (now apply acc_s1_inv).
+  3:{ destruct (negb (Nat.eqb (ac_nonce x) (ac_snap x))); [now apply acc_s1_inv|]. destruct (ccanc x); [now apply acc_ret_inv | exact H]. }
   - destruct (cw_res x) as [[v e]|].
     + destruct (Nat.eqb e 0); [now apply (Inv_ext s) | now apply cons_fail_inv].
     + destruct (ccanc x); [now apply cons_fail_inv | exact H].
@@ -987,7 +1011,7 @@ Proof.
   intros Hwf H. destruct e; cbn [step].
   - now apply set_context_inv.
   - now apply add_ref_inv.
-  - now apply release_call_by_inv.
+  - destruct (rkind (nth r (refs s) ref0)); try exact H; now apply release_call_by_inv.
   - now apply release_section_inv.
   - destruct (nth_error (gs s) g); [now apply released_section_inv | exact H].
   - now apply async_section_inv.
@@ -998,6 +1022,7 @@ Proof.
   - now apply cons_step_inv.
   - destruct (nth_error (conss s) c); [now apply (Inv_ext s) | exact H].
   - now apply fire_section_inv.
+  - now apply cb_return_inv.
 Qed.
 
 Lemma run_app fx s es e : run fx s (es ++ [e]) = step fx (run fx s es) e.
